@@ -674,6 +674,138 @@ META = {
         "level_note": "Trusts unstable_error_name() as the identity of a diagnostic; the allow-list is the one of the property statement plus the recursion-limit diagnostics.",
         "design_ref": "DESIGN.md section 6, C20",
     },
+    "C11": {
+        "budget": {"quick": 40, "thorough": 480},
+        "rule": "inputs: fixed witnesses, 4 hand-written base documents covering every definition/selection/value kind (valid and invalid), every corpus file "
+                "(<= 24 kB quick, <= 120 kB thorough), then generated documents until the budget is used: base and corpus documents re-emitted with hostile trivia "
+                "(comments, strings, block strings and descriptions holding 2/3/4-byte scalars, U+000B, U+000C, U+0085, U+2028, U+2029, BOM, lone CR, CRLF), optionally damaged "
+                "(identifier replaced / token mutation) so that diagnostics of every stage exist. Per document: explicit visitor over ast::Document, Schema (component maps) and "
+                "ExecutableDocument: (a) location present, file id in the source map (the file itself for the AST), range inside the file on char boundaries, (b) name text == source slice; "
+                "(c) get_line_column at EVERY char-boundary offset vs RefLineCol; (d) line_column_range().start and to_json().locations of every diagnostic with a location vs RefLineCol. "
+                "evaluations = documents; distinct_nontrivial = distinct documents containing a multibyte scalar, U+000B, U+000C or CR",
+        "assumptions": COMMON_ASSUMPTIONS + [
+            "the offset between the CR and LF of a CRLF and offsets inside a scalar are unspecified and not judged; only the start of a diagnostic's range is compared (whether the end is inclusive is not stated)",
+            "nodes that are synthesised rather than parsed are not visited: the implicit schema definition, SelectionSet.ty and Field.definition (taken from the schema)",
+            "(a)/(b) presuppose a lossless syntax tree (C02): in a document whose tree dropped a token all failures are reported under the single signature ab|locations-shifted|syntax-tree-lost-a-token(C02)",
+            "documents on which parsing or validation panics are skipped here (C01/C21)",
+        ],
+        "floors": {"any": {
+            "validity": ["valid", "invalid"],
+            "source": ["base_document", "corpus", "hostile_base_document", "hostile_corpus_document", "hostile_damaged_names", "hostile_token_mutant"],
+            "text_feature": ["multibyte", "U+000B", "U+000C", "U+0085", "U+2028", "U+2029", "CR", "CRLF", "line-terminator-at-end-of-input"],
+            "diagnostic_stage": ["parse", "schema-build", "schema-validation", "executable-build", "executable-validation"],
+            "visited": ["OperationDefinition", "FragmentDefinition", "DirectiveDefinition", "SchemaDefinition", "SchemaExtension", "ScalarTypeDefinition", "ScalarTypeExtension",
+                        "ObjectTypeDefinition", "ObjectTypeExtension", "InterfaceTypeDefinition", "InterfaceTypeExtension", "UnionTypeDefinition", "UnionTypeExtension",
+                        "EnumTypeDefinition", "EnumTypeExtension", "InputObjectTypeDefinition", "InputObjectTypeExtension", "FieldDefinition", "InputValueDefinition",
+                        "EnumValueDefinition", "VariableDefinition", "Field", "FragmentSpread", "InlineFragment", "Argument", "Directive", "Value", "Value::Enum", "Value::Variable",
+                        "ObjectField.name", "Type.name", "description", "Field.alias", "RootOperationTypeDefinition", "union member", "implements_interfaces",
+                        "Schema.schema_definition", "Schema.types key", "Schema.directive_definitions key", "ObjectType", "InterfaceType", "UnionType", "EnumType", "InputObjectType", "ScalarType",
+                        "ObjectType.fields key", "EnumType.values key", "InputObjectType.fields key", "UnionType.members", "ObjectType.implements_interfaces",
+                        "executable::Operation", "executable::Fragment", "executable::Field", "executable::FragmentSpread", "executable::InlineFragment",
+                        "executable::Fragment type condition", "OperationMap.named key", "FragmentMap key"],
+        }},
+        "technique": "runtime monitoring: explicit location visitor over AST/Schema/ExecutableDocument plus an every-offset differential sweep of get_line_column and diagnostic positions against an independent line/column model",
+        "level_text": "Exploration: every node and name of 10^5-10^6 parsed documents is checked for a correct source range, and every byte offset of every document (10^8-10^9 offsets) is converted and compared with the reference line/column model; documents are aimed at multibyte text and non-GraphQL line separators.",
+        "level_note": "Trusts RefLineCol (LineTerminator = LF, CRLF, CR only; columns in Unicode scalar values, as documented on LineColumn) and the visitor's enumeration of public node fields; synthesised nodes are out of scope.",
+        "design_ref": "DESIGN.md section 6, C11",
+    },
+    "C25": {
+        "budget": {"quick": 40, "thorough": 480},
+        "rule": "EXHAUSTIVE over abstract selection trees; node kinds {L = list-valued introspection field, N = non-list composite field, I = inline fragment, leaf, ...F0, ...F1}; "
+                "a selection set is one item optionally with one sibling spread before or after it. Space A: every main tree of <= 4 (quick) / <= 5 (thorough) selection-set levels x a menu of 6 (quick) / 8 (thorough) (F0, F1) fragment "
+                "definitions (own depth 0-2, F0 spreading F1, re-use inside F0). Space B: every F0 body of <= 3 (quick) / <= 4 (thorough) levels (spreading F1) x 4 F1 bodies x 16 operations re-using F0/F1 at different depths and orders. "
+                "Concrete names are drawn per case from the seed: L in {fields, interfaces, possibleTypes, inputFields} (fields/inputFields continue through `type`), inline fragment with/without `on __Type`, leaf name/kind, "
+                "unique aliases, `fields(includeDeprecated: true)`, root `__schema{types}` / `__type(name:)` / `__schema{queryType}`. Every operation is validated against `type Query { a: Int }` first; invalid ones are counted and dropped. "
+                "Every third operation is also judged in two metamorphic variants: all fragments inlined; one selection set extracted into a new fragment. Oracle: RefDepth >= 3 <=> check_max_depth is Err. "
+                "evaluations = operations executed (variants included); distinct_nontrivial = distinct valid operations containing a named-fragment spread",
+        "assumptions": COMMON_ASSUMPTIONS + [
+            "exhaustive over the abstract kinds only: the four list-field names, type conditions and aliases are sampled from the seed, not enumerated",
+            "selection sets have at most two members (one arbitrary item plus one sibling spread), except in the hand-written menus",
+        ],
+        "floors": {"any": {
+            "verdict": ["accept", "reject"],
+            "variant": ["inline_all", "extract"],
+            "origin": ["regression", "space-a", "space-b", "variant:inline_all", "variant:extract"],
+            "feature": ["fragment-spread-more-than-once", "reused-fragment-at-exactly-the-limit", "spread-inside-fragment"],
+            "reuse_x_verdict": ["reused,accept", "reused,reject"],
+            "ref_depth": ["0", "1", "2", "3", "4"],
+            "completed": ["space-a", "space-b"],
+        }},
+        "exhaustive_subspaces": {
+            "quick": ["space A: all 54240 main trees of <= 4 levels over {L,N,I,leaf,...F0,...F1} x 6 fragment menus", "space B: all 546 F0 bodies of <= 3 levels x 4 F1 bodies x 16 re-use operations"],
+            "thorough": ["space A: all 813615 main trees of <= 5 levels over {L,N,I,leaf,...F0,...F1} x 8 fragment menus", "space B: all 4920 F0 bodies of <= 4 levels x 4 F1 bodies x 16 re-use operations"],
+        },
+        "technique": "runtime monitoring: exhaustive differential check of the introspection depth limit against a fragment-expanding reference, with metamorphic inline/extract variants",
+        "level_text": "Exploration (exhaustive within the stated bounds): every abstract selection tree up to the depth bound, combined with fragment definitions re-used at different depths, is validated and judged against the expanded-depth reference; a shard that runs out of budget reports INCONCLUSIVE.",
+        "level_note": "Trusts RefDepth (max nesting of the four list fields with fragments expanded) and apollo's own validation to drop invalid operations.",
+        "design_ref": "DESIGN.md section 6, C25",
+    },
+    "C28": {
+        "budget": {"quick": 25, "thorough": 300},
+        "rule": "inputs: random schemas (enum, custom scalar, 1-3 acyclic input object types with 1-4 fields: any named kind, list depth <= 2, non-null, canonical default literals incl. null) with 12 variable types each "
+                "(list depth <= 3 over Int, Float, String, Boolean, ID, enum, custom scalar, input objects); 400 (quick) / 2000 (thorough) operations per schema with 1-3 variables (optional default literal, each variable used in a "
+                "matching argument so the operation validates); JSON variables = well-typed value (single values in place of lists at the outermost levels, omitted optional fields, absent variables) with 0-2 perturbations "
+                "(wrong kind, null, missing key/item/variable, extra key / undeclared variable, out-of-range number, float for int, numeric string <-> number, wrap in list, unwrap list). "
+                "Oracle RefCoerce: accept/reject must agree and on success the map must equal the reference's (numbers by value, objects unordered, exactly the provided-or-defaulted variables). "
+                "evaluations = (operation, variables) pairs executed; distinct_nontrivial = distinct judged pairs in which the reference rejected or took a non-scalar branch (wrapping, input object, default, enum, ...)",
+        "assumptions": COMMON_ASSUMPTIONS + [
+            "don't-care bands are counted and not judged: Float from an integer with |x| >= 2^53-1 that is exactly representable; Int from a float with integral value; ID from an integer outside i64; "
+            "a non-list item of a list whose item type is a list (October 2021 prose says wrap, its table says error)",
+            "default literals are canonical (lists written as lists, input objects with every field spelled out), so whether a default value is itself coerced is not observed",
+        ],
+        "floors": {"any": {
+            "verdict": ["accept", "reject"],
+            "feature": ["single-value-wrapped", "single-value-wrapped-nested", "input-object", "input-field-default-filled", "input-field-default-filled-nested", "optional-input-field-absent",
+                        "variable-default-used", "nullable-variable-absent", "explicit-null-overrides-default", "null-list-item", "enum-by-name", "custom-scalar-passthrough", "id-from-integer", "float-from-integer"],
+            "reject_rule": ["int-out-of-32-bit-range", "float-for-int", "string-for-int", "string-for-float", "integer-not-representable-as-float", "number-for-string", "wrong-kind-for-boolean", "float-for-id",
+                            "unknown-enum-value", "wrong-kind-for-enum", "non-object-for-input-object", "unknown-input-field", "required-input-field-missing", "required-variable-missing",
+                            "null-for-non-null", "null-item-for-non-null-item-type"],
+            "perturbation": ["wrong-kind", "null", "missing", "extra-key", "out-of-range", "float-for-int", "numeric-string", "wrap-in-list", "unwrap-list"],
+            "perturbation_count": ["0", "1", "2"],
+            "list_depth": ["0", "1", "2", "3"],
+        }},
+        "technique": "runtime monitoring: differential check of variable coercion against a reference CoerceVariableValues on generated schemas, operations and perturbed JSON values",
+        "level_text": "Exploration: 10^6-10^8 (operation, variables) pairs over generated schemas are coerced and compared, verdict and value, with a reference transcription of CoerceVariableValues and the input-coercion rules.",
+        "level_note": "Trusts RefCoerce (unit-tested on the spec's list-coercion table) and apollo's validation to confirm that generated operations and default literals are valid; four don't-care bands are excluded.",
+        "design_ref": "DESIGN.md section 6, C28",
+    },
+    "C29": {
+        "budget": {"quick": 40, "thorough": 120},
+        "rule": "EXHAUSTIVE in both tiers. Types: every wrapping to list depth 2 (14 shapes, quick) / 3 (30 shapes, thorough) of each named type. "
+                "(1) assignable: all ordered pairs (112x112 quick) over {Int,String,I,O,U,X,In,E}: Type::is_assignable_to vs AreTypesCompatible; "
+                "(2) usage: all ordered pairs (56x56 quick) (variable type A, location type B) over the input types {Int,String,In,E} x d in {none, literal, null} x ld in {none, literal} "
+                "(null default on a Non-Null variable skipped: the default itself is invalid): `query($v: A = d) { f(arg: $v) }` against `type Query { f(arg: B = ld): Int }`, "
+                "presence of DisallowedVariableUsage vs NOT IsVariableUsageAllowed; "
+                "(3) impl: all ordered pairs (98x98 quick) over {Int,String,I,J(implements I),O(implements I),U(contains O),X}: `interface I { f: A } type O implements I { f: B }`, "
+                "presence of InvalidImplementationFieldType about O.f vs NOT IsValidImplementationFieldType(B, A). "
+                "evaluations = cases executed; distinct_nontrivial = distinct usage and impl cases judged plus assignable cases in which at least one side is wrapped or the two differ",
+        "assumptions": COMMON_ASSUMPTIONS + [
+            "the variable-usage and implementation predicates are observed through the validation verdict of minimal, otherwise valid documents; a case in which any other diagnostic appears is not judged (listed as inconclusive)",
+            "named types are limited to one representative per kind and subtype relation; list nesting to depth 2 (quick) / 3 (thorough)",
+        ],
+        "floors": {"any": {
+            "completed": ["whole-space"],
+            "verdict": [
+                "assignable:compatible", "assignable:nullable-into-non-null", "assignable:named-into-list", "assignable:list-into-named", "assignable:different-named-type",
+                "usage:allowed", "usage:non-null-location,nullable-variable,no-default", "usage:non-null-location,nullable-variable,null-default-only",
+                "usage:types-incompatible:nullable-into-non-null", "usage:types-incompatible:named-into-list", "usage:types-incompatible:list-into-named", "usage:types-incompatible:different-named-type",
+                "impl:same-type", "impl:object-member-of-union", "impl:implements-interface", "impl:nullable-for-non-null", "impl:list-vs-named", "impl:unrelated-named-type",
+            ],
+            "usage_defaults": ["d=none,ld=false", "d=none,ld=true", "d=literal,ld=false", "d=literal,ld=true", "d=null,ld=false", "d=null,ld=true"],
+        }},
+        "exhaustive_subspaces": {
+            "quick": ["assignable: 112x112 type pairs (8 names x 14 wrappings, list depth <= 2)",
+                      "usage: 56x56 type pairs x d{none,literal,null} x ld{none,literal} minus null-default-on-non-null",
+                      "impl: 98x98 type pairs (7 names x 14 wrappings)"],
+            "thorough": ["assignable: 240x240 type pairs (8 names x 30 wrappings, list depth <= 3)",
+                         "usage: 120x120 type pairs x d{none,literal,null} x ld{none,literal} minus null-default-on-non-null",
+                         "impl: 210x210 type pairs (7 names x 30 wrappings)"],
+        },
+        "technique": "runtime monitoring: exhaustive differential check of three type predicates against a reference model transcribed from the October 2021 specification",
+        "level_text": "Exploration (exhaustive within the stated bounds): every ordered pair of type references to list depth 2 over one representative named type per kind/subtype relation, with every default-value combination, is judged against the spec algorithms.",
+        "level_note": "Trusts the reference transcription of AreTypesCompatible / IsVariableUsageAllowed / IsValidImplementationFieldType (unit-tested on the spec's examples) and the identification of the diagnostic by unstable_error_name().",
+        "design_ref": "DESIGN.md section 6, C29",
+    },
 }
 
 # Properties not claimed, with the reason (kept current; see DESIGN.md section 10).
